@@ -47,6 +47,12 @@ func (s routeSpec) npaths() int {
 }
 
 func (s routeSpec) prefix() *bnet.Prefix {
+	if s.Len == 0 { // the default route of the family
+		if s.V6 {
+			return bnet.NewPfx(bnet.IPv6(0, 0), 0).Ptr()
+		}
+		return bnet.NewPfx(bnet.IPv4(0), 0).Ptr()
+	}
 	if s.V6 {
 		return bnet.NewPfx(bnet.IPv6(0x20010db800000000|uint64(s.Pfx)<<16, 0), s.Len).Ptr()
 	}
@@ -98,6 +104,16 @@ func genRoutes(rng *rand.Rand, n int) []routeSpec {
 			out[i].Len = 48
 		} else {
 			out[i].Len = 16
+		}
+		// boundary prefix lengths: the default route (0.0.0.0/0, ::/0) and host routes (/32, /128)
+		switch rng.IntN(8) {
+		case 0:
+			out[i].Len = 0
+		case 1:
+			out[i].Len = 32
+			if v6 {
+				out[i].Len = 128
+			}
 		}
 		// one route in three carries two or three paths (ECMP static route, BGP multipath): legitimate for the API's Route message
 		if rng.IntN(3) == 0 {
@@ -232,6 +248,8 @@ type seqStats struct {
 	multiSource         bool
 	lastSourceWithdraws bool
 	multiPathLastGone   int // times a route of two or more paths lost its last source
+	defaultLastGone     int // times a default route (/0) lost its last source
+	hostLastGone        int // times a host route (/32, /128) lost its last source
 	byOp                map[string]int
 }
 
@@ -257,6 +275,12 @@ func (ck *checker) note(o op) {
 			ck.st.lastSourceWithdraws = true
 			if ck.routes[k].npaths() > 1 {
 				ck.st.multiPathLastGone++
+			}
+			switch ck.routes[k].Len {
+			case 0:
+				ck.st.defaultLastGone++
+			case 32, 128:
+				ck.st.hostLastGone++
 			}
 		}
 		ck.model[k] &^= bit
@@ -299,7 +323,14 @@ func (ck *checker) verify(i int, after string, trace func(int) string) {
 			if exp {
 				e = "present"
 			}
-			ck.viol("presence", vf.F("expected", e, "dup_advert", ck.dup[k], "after", after, "paths_in_route", min(ck.routes[k].npaths(), 2)),
+			plen := "inner"
+			switch ck.routes[k].Len {
+			case 0:
+				plen = "default-route"
+			case 32, 128:
+				plen = "host-route"
+			}
+			ck.viol("presence", vf.F("expected", e, "dup_advert", ck.dup[k], "after", after, "paths_in_route", min(ck.routes[k].npaths(), 2), "prefix_length", plen),
 				fmt.Sprintf("after op %d, route r%d (%s) is %s in the Loc-RIB but sources advertising it = %s; history: %s", i, k, ck.routes[k], map[bool]string{true: "present", false: "absent"}[got], srcSet(ck.model[k]), trace(i)))
 		}
 	}
@@ -612,7 +643,7 @@ func checkConc(c concCase, run int, viol func(clause string, f map[string]string
 
 func main() {
 	vf.Main("C29", "exploration", func(r *vf.Run) {
-		r.Rule("sequential: PRNG histories of 40 operations (50% AddRoute, 35% RemoveRoute, 15% DropAllBySrc) by 2-4 sources over 3 route keys (IPv4 or IPv6, BGP or static paths, keys may share a prefix and differ in the next hops; one route in three carries 2-3 paths in its API message); half of the histories never re-advertise a key a source is already advertising, the other half do; after EVERY operation ContainsPfxPath for every key, the Loc-RIB dump and nothing else is compared with the set-of-sources model. concurrent: 3-4 source goroutines with scripts of 6-12 operations plus a reader of 8-12 probes and a final quiescent probe of every key, call/return stamped from one atomic counter, checked with porcupine per route key (DropAllBySrc = one operation per key). RIS clients: 2-3 real risclient.RISClients, each on its own in-memory gRPC connection to a fake RIS server with a scripted ObserveRIB stream, write to the merged RIB; PRNG histories of up to 18 events (advertisement, withdrawal, graceful Stop() followed by one more update or the end of the stream, end of stream, stream error, loss of the server, a new client on the same connection); after every event (update: the client's call into the merged RIB returned; source gone: its DropAllBySrc returned or its goroutine left RISClient.serviceLoop) the same ContainsPfxPath + dump comparison with the set-of-sources model. distinct_nontrivial = distinct histories in which some key is advertised by two sources at once AND the last advertising source withdraws or is dropped (sequential), or in which operations of different goroutines on one key overlap in time (concurrent)")
+		r.Rule("sequential: PRNG histories of 40 operations (50% AddRoute, 35% RemoveRoute, 15% DropAllBySrc) by 2-4 sources over 3 route keys (IPv4 or IPv6, BGP or static paths, keys may share a prefix and differ in the next hops; one key in eight is the default route 0.0.0.0/0 resp. ::/0, one in eight a host route /32 resp. /128, the others /16 resp. /48; one route in three carries 2-3 paths in its API message); half of the histories never re-advertise a key a source is already advertising, the other half do; after EVERY operation ContainsPfxPath for every key, the Loc-RIB dump and nothing else is compared with the set-of-sources model. concurrent: 3-4 source goroutines with scripts of 6-12 operations plus a reader of 8-12 probes and a final quiescent probe of every key, call/return stamped from one atomic counter, checked with porcupine per route key (DropAllBySrc = one operation per key). RIS clients: 2-3 real risclient.RISClients, each on its own in-memory gRPC connection to a fake RIS server with a scripted ObserveRIB stream, write to the merged RIB; PRNG histories of up to 18 events (advertisement, withdrawal, graceful Stop() followed by one more update or the end of the stream, end of stream, stream error, loss of the server, a new client on the same connection); after every event (update: the client's call into the merged RIB returned; source gone: its DropAllBySrc returned or its goroutine left RISClient.serviceLoop) the same ContainsPfxPath + dump comparison with the set-of-sources model. Reconnecting RIS clients: histories in which ONE client lives through 2 (thorough: 2-3) ObserveRIB sessions: it learns routes (4-7 advertisements/withdrawals per session, two in five by other sources), loses its stream (end of stream or stream error) WITHOUT being stopped, opens the next stream by its own retry loop (real backoff timer, 2.5-7.5 s), learns routes again and loses that stream too (end of stream, stream error or graceful Stop()); same comparison after every event (violations after the loss of a later session carry after=ris-<how>-of-reconnected-client). distinct_nontrivial = distinct histories in which some key is advertised by two sources at once AND the last advertising source withdraws or is dropped (sequential), or in which operations of different goroutines on one key overlap in time (concurrent)")
 		r.Assume("a source is an opaque comparable value (the RIS client passes its *grpc.ClientConn); one goroutine per source, as in the RIS mirror", "distinct route keys never share a (prefix, path) pair; a route of several paths is present when the Loc-RIB holds at least one of its paths under its prefix (which ones get installed is bio-rd's choice) and absent when it holds none of them", "cross-key atomicity of DropAllBySrc is not claimed", "a RIS source has gone away when its client left the service loop for any reason (Stop, end of stream, stream error, server lost); a client that was told to Stop() but is still blocked in Recv is not judged", "a porcupine timeout (30 s per key) makes the run inconclusive, not violated")
 		// the first witness of every signature is minimised (greedy removal of operations while the same
 		// clause with the same features still fires) before it is recorded
@@ -700,6 +731,48 @@ func main() {
 		var mu sync.Mutex
 		risWedged := ""
 		byOp := map[string]int{}
+		risPhase := func(n, width int, name string, gen func(i int) risCase) {
+			vf.Parallel(n, width, func(i int) {
+				c := gen(i)
+				st := &seqStats{byOp: map[string]int{}}
+				if w := runRIS(c, fmt.Sprint(name, i), st, mkRIS(c)); w != "" {
+					r.Count("ris_watchdog_expiries", 1)
+					mu.Lock()
+					risWedged = w
+					mu.Unlock()
+				}
+				r.Eval(st.checks)
+				r.Count("ris_client_events", st.ops)
+				r.Count("default_routes_losing_last_source", st.defaultLastGone)
+				r.Count("host_routes_losing_last_source", st.hostLastGone)
+				mu.Lock()
+				for k, v := range st.byOp {
+					byOp[k] += v
+				}
+				mu.Unlock()
+				if st.multiSource && st.lastSourceWithdraws {
+					r.Nontrivial(fmt.Sprintf("%s/%d", name, i))
+				}
+				if i < 1 {
+					r.Sample(map[string]any{"mode": name, "sources": c.NSrc, "ops": c.Ops})
+				}
+			})
+		}
+		// reconnecting RIS clients: the histories mostly wait for the clients' own retry timers (2.5-7.5 s before the first
+		// retry, 3.75-11.25 s before the second), so all of a batch run side by side and next to the other phases
+		nrec := r.N(24, 480)
+		recDone := make(chan struct{})
+		go func() {
+			defer close(recDone)
+			risPhase(nrec, 48, "ris-reconnect", func(i int) risCase {
+				rng := r.RandN("c29risrec", i)
+				nre := 1
+				if !r.Quick() && rng.IntN(4) == 0 {
+					nre = 2
+				}
+				return genRISReconnect(rng, nre)
+			})
+		}()
 		nseq := r.N(5000, 200000)
 		vf.Parallel(nseq, 8, func(i int) {
 			rng := r.RandN("c29seq", i)
@@ -717,6 +790,8 @@ func main() {
 			r.Count("sequential_operations", st.ops)
 			r.Count("repeated_advertisements", st.dupAdverts)
 			r.Count("multi_path_routes_losing_last_source", st.multiPathLastGone)
+			r.Count("default_routes_losing_last_source", st.defaultLastGone)
+			r.Count("host_routes_losing_last_source", st.hostLastGone)
 			if st.multiSource && st.lastSourceWithdraws {
 				r.Nontrivial(fmt.Sprintf("seq/%d", i))
 			}
@@ -746,29 +821,14 @@ func main() {
 		r.Count("concurrent_histories", nconc)
 		// producer side: real RIS clients over scripted ObserveRIB streams
 		nris := r.N(150, 6000)
-		vf.Parallel(nris, 4, func(i int) {
-			c := genRIS(r.RandN("c29ris", i))
-			st := &seqStats{byOp: map[string]int{}}
-			if w := runRIS(c, fmt.Sprint(i), st, mkRIS(c)); w != "" {
-				r.Count("ris_watchdog_expiries", 1)
-				mu.Lock()
-				risWedged = w
-				mu.Unlock()
-			}
-			r.Eval(st.checks)
-			r.Count("ris_client_events", st.ops)
-			mu.Lock()
-			for k, v := range st.byOp {
-				byOp[k] += v
-			}
-			mu.Unlock()
-			if st.multiSource && st.lastSourceWithdraws {
-				r.Nontrivial(fmt.Sprintf("ris/%d", i))
-			}
-			if i < 1 {
-				r.Sample(map[string]any{"mode": "ris-clients", "sources": c.NSrc, "ops": c.Ops})
-			}
-		})
+		risPhase(nris, 4, "ris", func(i int) risCase { return genRIS(r.RandN("c29ris", i)) })
+		<-recDone
+		r.Count("ris_reconnect_histories", nrec)
+		r.Count("ris_client_reconnects", byOp["ris-reconnect"])
+		r.Count("ris_later_sessions_lost", byOp["ris-later-session-lost"])
+		r.Count("ris_sole_source_routes_at_loss_of_later_session", byOp["ris-later-session-lost-sole-source-routes"])
+		r.Require("ris_later_sessions_lost", int64(nrec*3/4))
+		r.Require("ris_sole_source_routes_at_loss_of_later_session", int64(nrec/2))
 		r.Count("ris_client_histories", nris)
 		for _, k := range []string{"stop", "eof", "break", "kill"} {
 			r.Count("ris_sources_gone_by_"+k, byOp["ris-"+k])
@@ -783,6 +843,8 @@ func main() {
 		}
 		r.Require("sequential_operations", 1000)
 		r.Require("multi_path_routes_losing_last_source", 100)
+		r.Require("default_routes_losing_last_source", 100)
+		r.Require("host_routes_losing_last_source", 100)
 		r.Require("overlapping_operation_pairs", 100)
 	})
 }
